@@ -64,10 +64,26 @@ def _mols(case):
     return [mate, mol], 1
 
 
+def _stretched(m, d):
+    """bond between atoms 0 and 1 changed by d Angstrom (atom 1 moved along the bond)"""
+    m = dict(m)
+    c = np.array(m["coords"], float)
+    u = c[1] - c[0]
+    c[1] = c[1] + d * u / np.linalg.norm(u)
+    m["coords"] = c
+    return m
+
+
 def run_case(case):
     from ..budget import IterationHorizon
 
     mols, pad = _mols(case)
+    first = None
+    if case.get("revisit"):
+        # the SAME Molecule object is evaluated at a stretched geometry first and then moved in place (as MD and the
+        # optimiser do) to a compressed one, where the identities are evaluated; frontier orbitals re-order in between
+        first = [_stretched(m, 0.40) for m in mols]
+        mols = [_stretched(m, -0.15) for m in mols]
     target = mols[-1]
     uhf = bool(case["uhf"]) or target["mult"] != 1
     act = case["excited"][1] if case["excited"] else 0
@@ -85,7 +101,7 @@ def run_case(case):
         if hz:
             hz.__enter__()
         try:
-            molecule, es = sp.build(mols, params, pad_extra=pad)
+            molecule, es = sp.build(first or mols, params, pad_extra=pad)
             if act and case.get("mixed_active"):
                 # per-molecule request mixing a ground-state and an excited molecule in one call
                 import torch as _t
@@ -96,6 +112,13 @@ def run_case(case):
             molecule.verbose = False
             kw = {} if case["force"] else {"do_force": False}
             es(molecule, **kw)
+            if first:
+                import torch as _t
+
+                with _t.no_grad():
+                    for r, m in enumerate(mols):
+                        molecule.coordinates[r, : len(m["species"])] = _t.as_tensor(np.asarray(m["coords"], float))
+                es(molecule, **kw)
         finally:
             if hz:
                 hz.__exit__(None, None, None)
@@ -128,7 +151,7 @@ def run_case(case):
         ids = O.identities(
             method, m, obs, r, F=F, h=h, uhf=uhf, active=(act if (not case.get("mixed_active") or r == len(mols) - 1) else 0),
             sp2_tol=SP2_TOL if case["sp2"] else None, nbf=nbf,
-            has_dipole=(method != "PM6"), exc_tol=1e-9 if case["force"] else 1e-6,
+            has_dipole=(method != "PM6"), exc_tol=1e-9 if case["force"] else 1e-6, tracked=bool(first),
         )  # fmt: skip
         rows.append(ids)
     # translation law on the (x, x+t) pair
@@ -192,6 +215,19 @@ def lattice(tier, seed):
                 for ex in (("cis", 1), ("cis", 2)):
                     add(method, name, "adaptive", False, False, ex, False, "pair", "generic")
                     cases[-1]["mixed_active"] = True
+    # objects with a history: evaluated at another geometry before (RHF objects track their orbitals across calls)
+    for method in ["AM1", "PM3"] if tier == "quick" else methods:
+        for name in ["CH4", "H2O", "NH3", "H2CO", "CH3OH", "HCN", "CH3Cl", "H2S"]:
+            if not _supported(method, L.get_named(name)):
+                continue
+            for layout in ("pair", "mixed"):
+                for uhf in (False, True):
+                    add(method, name, "adaptive", False, uhf, None, True, layout, "generic")
+                    cases[-1]["revisit"] = True
+                if name in EXCITABLE:
+                    for ex in (("cis", 1), ("rpa", 2)) if tier == "quick" else (("cis", 1), ("cis", 2), ("rpa", 1), ("rpa", 2)):
+                        add(method, name, "adaptive", False, False, ex, True, layout, "generic")
+                        cases[-1]["revisit"] = True
     for name in PM6_MOLS:
         for solver in solvers:
             for layout, orient in layouts:
@@ -203,7 +239,7 @@ def key(c):
     ex = "S0" if not c["excited"] else f"{c['excited'][0]}{c['excited'][1]}"
     return (
         f"{c['method']}|{c['spec']['mol']}|{c['spec']['orient']}|{c['solver']}|sp2={int(c['sp2'])}|"
-        f"{'UHF' if c['uhf'] else 'RHF'}|{ex}|{'F' if c['force'] else 'E'}|{c['layout']}" + ("|active=[0,k]" if c.get("mixed_active") else "")
+        f"{'UHF' if c['uhf'] else 'RHF'}|{ex}|{'F' if c['force'] else 'E'}|{c['layout']}" + ("|active=[0,k]" if c.get("mixed_active") else "") + ("|revisit" if c.get("revisit") else "")
     )
 
 
@@ -216,7 +252,7 @@ def describe(c, identity, row, err, tol):
         orient=c["spec"]["orient"], solver=c["solver"], sp2=bool(c["sp2"]), spin="UHF" if uhf else "RHF",
         charge=int(m["charge"]), mult=int(m["mult"]), excited="S0" if not c["excited"] else f"{c['excited'][0]}{c['excited'][1]}",
         force_requested=bool(c["force"]), layout=c["layout"], err=err, tol=tol,
-        elements=",".join(str(z) for z in sorted(set(m["species"]))),
+        elements=",".join(str(z) for z in sorted(set(m["species"]))), history="revisit" if c.get("revisit") else "fresh",
     )  # fmt: skip
     return d
 
